@@ -648,7 +648,6 @@ def main():
                         cov_adr["largest number of distinct (account, client address) pairs logged in within one history"] = max(cov_adr["largest number of distinct (account, client address) pairs logged in within one history"], len(adrs))
                     cov_adr["largest number of distinct accounts logged in within one history"] = max(cov_adr["largest number of distinct accounts logged in within one history"], len(online))
                 if name == "clock-stepped-back":
-                    ahead = [k for k, x in enumerate(ref.slots) if x and not x["old"]]
                     cov_clock["steps back of the clock"] += 1
                     stepped[0] = True
                 if stepped[0] and code == 1 and not any(x is None for x in ref.slots) and id_ok(a[0], idlen):
@@ -720,14 +719,19 @@ def main():
               "observed_results": [" ".join(s[0]) for s in (parse_steps(io[5], nslots, len(hs[5]["idpool"])) or [])[:8]]})
     c.finish(rule="PRNG(seed)-generated histories of 15-40 operations over an id pool (valid, too short/long, leading digit, symbols, NUL inside, non-ASCII, case twins, new/guest, the reserved ids of the fixture) "
                   "and a password pool (shared 8-byte prefixes, bit-7 twins, NUL inside, NUL first, zero length, key block zero) on %d-slot tables that are roomy / tight / full / full with expired accounts; one history in five through the gin handlers; "
+                  "initial accounts with last-login stamps later than the clock and near the expiry limit, steps back of the clock (1 s .. 20000 s) inside tight / full histories; "
+                  "plus 'many-addresses' histories of USHM_SIZE+12 .. USHM_SIZE+30 operations in one shared-memory lifetime in which every login / registration comes from a client address not used before; "
                   "plus, complete for its domain, every byte value 0x80..0xFF at every position of otherwise well-formed ids (register + one other request each, see exhaustive_parts); "
                   "plus histories of the same kind on the production build (-tags docker, MAX_USERS=%d) over files of a few thousand records in which accounts sit behind PRE_ALLOCATED_USERS-1 / exactly / +1 / +2 / +9 / +120 / +600 free records, are sprinkled over such a file, "
                   "or (control) the file has at most PRE_ALLOCATED_USERS free records, with requests for those accounts in every letter case, re-registration of their ids and rebuilds of the index on the running server; "
                   "a history is distinct by (shape, layer, table, operation list); each operation is one evaluation of the predicates" % (nslots, DOCKER_MAX_USERS),
              assumptions=["passwords are compared through their DES key block (first 8 bytes up to NUL, low 7 bits): crypt(3) sees nothing else (C02); that two different key blocks never verify each other's hash is C02's cryptographic assumption",
-                          "fewer than USHM_SIZE (31) distinct users are logged in during one history; home/<c>/ parents exist",
+                          "fewer than USHM_SIZE (31) distinct ACCOUNTS log in during one shared-memory lifetime (= one history); the number of logins and of client addresses is not limited (many-addresses histories: more than USHM_SIZE logins, each from a new address); "
+                          "that one entry per account suffices is a theorem about the model's on-line table (C03_utmp_never_full), that the server's table behaves like it is validated by these histories, on the default build only (the 524 entries of the production build are not filled); home/<c>/ parents exist",
                           "'the account's current password' is read as: the password last given to Register/ChangePasswd when it is non-empty as a C string; for a zero-length or NUL-leading one cmbbs.GenPasswd stores the all-zero hash (repaired under C02: it used to panic on zero length) and, as in pttbbs, nothing verifies against it - such an account exists, keeps its id taken, and cannot log in or change its password (counted under coverage.zero_hash_accounts)",
-                          "operations are sequential (concurrent registrations are C15's subject); the clock enters only through the .fresh throttle and the last-login age of the initial accounts",
+                          "operations are sequential (concurrent registrations are C15's subject); the clock enters through the .fresh throttle and now - LastLogin of each account; "
+                          "the process cannot move the real clock: initial accounts get stamps on either side of it (5 s / 1 h / 400 days later; now; 14 days, limit -2 days, limit +2 days, 5 years earlier) and 'the clock is stepped back by d' moves every LastLogin of .PASSWDS and the mtime of .fresh ahead by d, "
+                          "which is the same to code that only forms now - stamp. Theorem: the model's expiry rule for ages of either sign (C03_expired_exact, C03_stamp_ahead_never_expires, C03_clock_back_keeps_unexpired); validated: that the server computes that rule (accounts are PERM_DEFAULT: KEEP_DAYS_UNREGGED; differences beyond the int32 range of Time4 are not generated)",
                           "production build: .PASSWDS is as long as its records (up to about 2600 of the 2 000 000; fillUHash reads to the end of the file) - a 1 GB file is not written; fewer registrations per history than free records in the index, "
                           "so the clean-up of a full 2 000 000-slot table (tryCleanUser) is not exercised on that build; the free records are all-zero records (no garbage ids)"])
 
